@@ -41,11 +41,13 @@ def gen_config(rng, escape=None, kicks=None, ntout=None, cls=None):
                binning_method=rng.choice(["default", "default", "split_linear"]), esc_rate=0.0)
     esc = rng.random() < 0.5 if escape is None else escape
     if esc:
-        tmax = max(max(tout), 1.0)
+        tmax = max(max(tout), 100.0)      # (a schedule of very young ages must not turn into an escape rate that strips the low-mass stars within a Myr)
         cfg["esc_rate"] = -rng.uniform(0.02, 0.4) * N0 / tmax
         cfg["esc_norm"] = rng.choice(["N", "M"])
         if cfg["esc_norm"] == "M":
-            cfg["esc_rate"] *= 0.5
+            # a mass rate: scaled with the IMF's mean mass (continuity-normalised closed form), so that bottom-heavy IMFs are not dissolved
+            # before the last age (stellar evolution removes mass as well: factor 0.5)
+            cfg["esc_rate"] *= 0.5 * min(1.0, imf_mean_mass(mb, a))
         cfg["tcc"] = rng.choice([0.0, 0.0, tmax * rng.random(), 1e9])
         cfg["md"] = rng.choice([1.2, 1.2, 0.8, 2.0])
     kk = rng.random() < 0.3 if kicks is None else kicks
@@ -68,6 +70,22 @@ def gen_config(rng, escape=None, kicks=None, ntout=None, cls=None):
         cfg["f_BH"] = [rng.choice([0.0, 1e-4, 1e-3]) for _ in tout]
         cfg["strict_BH_target"] = False
     return cfg
+
+
+def imf_mean_mass(mb, a):
+    """mean stellar mass of a continuous broken power law (closed form per segment)"""
+    c, num, den = 1.0, 0.0, 0.0
+    for i in range(len(a)):
+        if i:
+            c *= mb[i] ** (a[i - 1] - a[i])
+        for k, acc in ((1, "n"), (2, "m")):
+            p = a[i] + k
+            v = c * (math.log(mb[i + 1] / mb[i]) if p == 0 else (mb[i + 1] ** p - mb[i] ** p) / p)
+            if acc == "n":
+                den += v
+            else:
+                num += v
+    return num / den
 
 
 def build(cfg, ode_override=None):
